@@ -37,6 +37,7 @@ PROFILES = [
     {"h0a": (2, True), "hd": (1, False)},                       # suspending handler raises, derived handler suspends
     {"post": (1, True), "h1a": (1, False), "h2a": (2, False)},  # trailing sniffer raises after suspending
     {"h0a": (1, False), "h0b": (2, False), "h1a": (1, True), "hd": (0, True)},
+    {"h0a": (3, False), "h1a": (4, True), "pre": (3, False)},   # long handlers (3-4 suspension points)
 ]
 
 
@@ -68,7 +69,7 @@ class MethodHandler:
         return await self.fn(ev)
 
 
-def again(handler):
+def again(handler):   # noqa: E302
     """the same handler as a strategy would name it a second time (a bound method is looked up afresh)"""
     if getattr(handler, "__self__", None) is not None and isinstance(handler.__self__, MethodHandler):
         return handler.__self__.on_event
@@ -86,6 +87,12 @@ def make_handler(mon, name, nsusp, raises, extra=None, kind=0):
         h = make_handler(mon, name, nsusp, raises, extra)
         if kind == 3:
             return MethodHandler(h).on_event
+        if kind == 4:
+            # a plain callable returning an awaitable that is not a coroutine (a Task)
+            def returns_task(ev):
+                return asyncio.ensure_future(h(ev))
+            returns_task.hname = name
+            return returns_task
         if kind == 1:
             async def with_tag(tag, ev):
                 return await h(ev)
@@ -124,8 +131,8 @@ def scenario(ctx, props=("C12",), nsrc=2, nev=2, njobs=0, max_mc=3, derived=True
              handler_kinds=False, job_perms=True, job_zones=False):
     P = set(props)
     # what kind of callable the handlers are: plain coroutine functions, functools.partial objects, callable instances,
-    # bound methods
-    hkind = ctx.choice("handler_callable_kind", 4) if handler_kinds else 0
+    # bound methods, plain callables returning a Task
+    hkind = ctx.choice("handler_callable_kind", 5) if handler_kinds else 0
     mc = ctx.int("max_concurrent", 1, max_mc)
     d = bs.backtesting_dispatcher(max_concurrent=mc)
     mon = Monitor(d)
